@@ -5,6 +5,14 @@ V = os.path.dirname(os.path.dirname(os.path.abspath(__file__)))
 ids = [json.loads(l)['id'] for l in open(os.path.join(V, 'properties.jsonl'))]
 TECH = 'bounded symbolic execution of the real code (clang IR -> ll2c -> CBMC 6.11 / SAT), counterexamples replayed on a g++ ASan build'
 CLAIMED = {
+    'C11': ('3.C11', 'The real GccPlatformSpecificRunTestInASeperateProcess / SetTestFailureByStatusCode code is run against symbolic fork/waitpid models: every status word (all signals, exit codes, stop/continue encodings), errno values and EINTR runs up to and past the retry bound (<= 36 wait results) are one formula; failures added, SIGCONT, retry bound and termination are checked against a wait(2) reference. Child path: _exit code != 0 iff failures were added.',
+            'kill/_exit/fork/waitpid are recording models; message text emptied in the long-loop group; at most 1-2 non-terminal reports in the 36-result obligations (object limit)'),
+    'C15': ('3.C15', 'FailableMemoryAllocator designations (global / at-location, symbolic n, order and locations) followed by allocation histories, checkAll/clear, the C malloc countdown and the tracked strdup/strndup/calloc under symbolic allocation failure are decided against a reference written from the property; one open known finding (KF-C15-2) is excluded by its input predicate and re-demonstrated on every run.',
+            '3-4 designations, 4-6 allocations; countdown group uses contract stubs for the leak detector in the translated world (real detector in the differential build)'),
+    'C17': ('3.C17', 'SetPointerPlugin restore (symbolic targets/values at arbitrary table fill, the 32-entry limit and the failing 33rd store) and plugin chains (order of pre/post actions, disabled plugins, removal by name at every depth through TestPlugin and TestRegistry, install/remove sequences) are decided symbolically.',
+            'counts are compile-time constants per obligation; 8 constant install/remove sequences with symbolic flags'),
+    'C18': ('3.C18', 'SimpleStringInternalCache histories of 3-5 alloc/dealloc/clearCache/clearAll operations with symbolic sizes (0..1024), symbolic released pointer (live, stale, foreign) and size are decided against a shadow map: no aliasing of live buffers, capacity, reuse within the size class, exactly-once return, one-time warning; GlobalSimpleStringCache scope; open known finding KF-C18-1 excluded and re-demonstrated.',
+            'operation kinds are concrete per obligation (symbolic kinds in thorough); heap served from static blocks'),
     'C02': ('3.C02', 'TestRegistry::runAllTests with the real filter matching is run symbolically over 2 (thorough: 3) tests with symbolic group/name strings (<=2 bytes), normal/ignored mix, 0..2 group and 0..2 name filters with symbolic text and strict/invert flags, run-ignored on/off: executions, run/ignored/filtered-out counters and balanced group/test notifications equal a reference selection; shuffle (arbitrary seed, every rand() result symbolic), reverse and their composition are shown to be permutations of 4 (thorough: 5) tests.',
             'setjmp replaced by a plain call (C01 covers it); test body replaced by an execution counter; longer names / larger registries are outside the bound'),
     'C01': ('3.C01', 'A scripted test runs through the real runOneTest / runOneTestInCurrentProcess / Utest::run / PlatformSpecificSetJmp code in both builds (with and without C++ exceptions; setjmp/longjmp and Itanium EH modelled by the translator). The solver decides, for every script of 2 statements per phase x {continue, C++-style fail, C-style fail, throw int}, every plugin error pattern and every initial jump depth 0..7: body iff setup completed, teardown always, nothing after a failing statement, each failure recorded and printed once with its line, context and jump-buffer depth restored (inductive: covers arbitrarily long runs of failing tests). Plus: summary line OK/Errors and counts for all 64-bit counters; runner return value == 0 iff every repetition OK (repeat <= 4).',
